@@ -1,4 +1,5 @@
 import FstVerif.Proofs.Seek
+import FstVerif.Proofs.Wrappers
 import FstVerif.Proofs.EndToEnd
 import FstVerif.Proofs.Aut
 /-
@@ -82,5 +83,38 @@ theorem C04_compl_contract (A : Aut σ) (hA : HintsSound A) :
     Contract (autCompl A) := ⟨fun _ => rfl, (C18_hints_compl A hA).1⟩
 theorem C04_startswith_contract (A : Aut σ) (hA : HintsSound A) :
     Contract (autStartsWith A) := ⟨fun _ => rfl, (C18_hints_startswith A hA).1⟩
+
+
+/-! ### the wrapper layer a user calls (src/map.rs, src/set.rs; Model/Wrappers.lean) -/
+
+/-- `map.search(aut).ge/gt/le/lt(..)…into_stream()` -/
+theorem C04_map_search {A : Aut σ} (hg : GoodStore s den) (hr : Represents acc s) (root : Nat)
+    (hroot : root = 0 ∨ ∃ n, (root, n) ∈ s) (hA : Contract A) (rs : RangeSpec) :
+    ∃ N, ∀ fuel, N ≤ fuel → Wrap.mapSearch acc A root rs fuel =
+      some ((den root).filter fun kv => lowerOK rs.min kv.1 && upperOK rs.max kv.1 && A.accepts kv.1) :=
+  Wrap.mapSearch_correct hg hr root hroot hA.1 hA.2 rs
+
+/-- `map.search_with_state(aut)…`: each entry with the automaton state reached after its key -/
+theorem C04_map_search_with_state {A : Aut σ} (hg : GoodStore s den) (hr : Represents acc s) (root : Nat)
+    (hroot : root = 0 ∨ ∃ n, (root, n) ∈ s) (hA : Contract A) (rs : RangeSpec) :
+    ∃ N, ∀ fuel, N ≤ fuel → Wrap.mapSearchWithState acc A root rs fuel =
+      some (((den root).filter fun kv => lowerOK rs.min kv.1 && upperOK rs.max kv.1 && A.accepts kv.1).map
+        fun kv => (kv.1, kv.2, A.run A.start kv.1)) :=
+  Wrap.mapSearchWithState_correct hg hr root hroot hA.1 hA.2 rs
+
+/-- `set.search(aut)…` -/
+theorem C04_set_search {A : Aut σ} (hg : GoodStore s den) (hr : Represents acc s) (root : Nat)
+    (hroot : root = 0 ∨ ∃ n, (root, n) ∈ s) (hA : Contract A) (rs : RangeSpec) :
+    ∃ N, ∀ fuel, N ≤ fuel → Wrap.setSearch acc A root rs fuel =
+      some (((den root).filter fun kv => lowerOK rs.min kv.1 && upperOK rs.max kv.1 && A.accepts kv.1).map (·.1)) :=
+  Wrap.setSearch_correct hg hr root hroot hA.1 hA.2 rs
+
+/-- `set.search_with_state(aut)…` -/
+theorem C04_set_search_with_state {A : Aut σ} (hg : GoodStore s den) (hr : Represents acc s) (root : Nat)
+    (hroot : root = 0 ∨ ∃ n, (root, n) ∈ s) (hA : Contract A) (rs : RangeSpec) :
+    ∃ N, ∀ fuel, N ≤ fuel → Wrap.setSearchWithState acc A root rs fuel =
+      some (((den root).filter fun kv => lowerOK rs.min kv.1 && upperOK rs.max kv.1 && A.accepts kv.1).map
+        fun kv => (kv.1, A.run A.start kv.1)) :=
+  Wrap.setSearchWithState_correct hg hr root hroot hA.1 hA.2 rs
 
 end Fst.Props
